@@ -358,6 +358,16 @@ package ugo
 //@ ensures r == specDisabled(rootOf(st), name)
 //@ property C13
 
+// The disabled set seen from any table, however deeply nested, is the root's
+// (module tables and the optimizer's evaluator copy it from here).
+//@ func (*SymbolTable).disabledBuiltinsMap
+//@ params st
+//@ results r
+//@ requires rootOfDef()
+//@ ensures[root] st != nil ==> verifrt.SameRef(r, rootOf(st).disabledBuiltins)
+//@ ensures[nil]  st == nil ==> r == nil
+//@ property C13
+
 // Root table: a cached builtin symbol exists only for names that are not
 // disabled; resolving returns a builtin only for such names; disabling names
 // re-establishes the invariant (the cache is purged).
